@@ -11,6 +11,9 @@ CHECKS = {
  "C02": dict(cat="fault_enumeration", tech="deterministic simulation with a Byzantine prover (single-cell and public-input faults), differential oracle against the constraint checker", ref="DESIGN.md 4/C02",
    text="The pipeline of C01 with a Byzantine prover: per generated circuit the key is generated once and a list of plans is delivered - no edit, one edited advice cell (sites walked in thorough mode, sampled in quick), one edited public input - to the real prover+verifier and to MockProver; the two verdicts must coincide and every constraint class must be seen rejected by the real verifier.",
    note="Single-cell, non-propagated edits only; the generated family stands for 'all circuits'; a prover that errors or panics on a bad assignment counts as rejection."),
+ "C12": dict(cat="exploration", tech="deterministic simulation with the scheduler as the subject (PRNG-chosen pool size and task order per run), naive-definition oracle", ref="DESIGN.md 4/C12",
+   text="Every MSM, FFT and domain-algebra entry point is executed under a drawn pool size (1..64, including pools larger than the input) and task order and compared with its naive definition: all MSM lengths 0..70 for all five MSM entry points, eval_polynomial and parallelize at all lengths 0..64, then sampled sizes up to 2^12 crossing the window switches (4, 32, e^9), FFT sizes 2^0..2^12 over scalars and 2^0..2^6 over G1, domains k=1..10 with quotient degrees 1..8, rotations -3..3, l_i ranges with negative and beyond-n indices.",
+   note="Naive definitions use the library's own field and single-point group operations (C10/C11 out of scope); blst's internal pool is disabled, its real single-threaded Pippenger runs; task-order permutation exposes arrival-order dependence, not sub-task data races (there is no shared mutable state in these sections)."),
  "C16": dict(cat="fault_enumeration", tech="deterministic simulation with storage/channel faults (truncation at every byte, all 256 values of every header byte, bit flips, splices, appended and random bytes, short reads, EINTR) on every verifier-facing decoder, in rlimited child processes under a counting allocator", ref="DESIGN.md 4/C16",
    text="Every verifier-facing decoder (MidnightVK, ZkStdLibArch, proofs VerifyingKey, verifier parameters, IR programs as JSON and bincode, proof bytes) is fed corrupted encodings; the outcome must be Ok or Err - never a panic, abort, stack overflow, hang or a single allocation above 16 MiB + 64 x input - every key that decodes must then verify proofs without panicking, and checked formats must re-encode to the bytes they consumed with all points on the curve (in the subgroup for compressed points). Truncation points and header bytes are enumerated, body corruption is sampled.",
    note="Fixtures: a Poseidon standard-library relation, an arithmetic relation, one generated circuit, a 10-instruction IR program; proving keys and full parameter sets are exercised and reported only (counters in the evidence); RawBytesUnchecked excluded as the property states."),
